@@ -23,7 +23,7 @@ ASSUMPTIONS = c01.ASSUMPTIONS + ["writes are fitting: strings no longer (in byte
 
 
 def budget(tier):
-    return {"examples": 400 if tier == "quick" else 5000}
+    return {"examples": 1000 if tier == "quick" else 8000}
 
 
 def essential_labels(tier):
